@@ -66,12 +66,15 @@ def task_is_kanji(I):
     def inv(ctx):
         k = ctx.k
         data = st['data']
-        it = ctx.L['data_iter']
-        return [('iterator_position', it.pos == 2 * k),
+        # the invariant is about the abstraction (pairs checked so far); an explicit iterator, if the body uses one, is tied to it
+        its = [v for v in ctx.L.values() if isinstance(v, SIter) and v.seq is data]
+        return [('iterator_position', s_and(*[it.pos == 2 * k for it in its]) if its else True),
                 ('pairs_so_far_are_valid_kanji', QForall(lambda g: s_implies(s_and(g >= 0, g < k), modes.sjis_pair_valid(*_pair(data, g))), 'inv_pairs'))]
 
     def havoc(ctx):
-        ctx.L['data_iter'].pos = ctx.interp.fresh_int('it_pos', 0, None)
+        for v in ctx.L.values():
+            if isinstance(v, SIter) and v.seq is st['data']:
+                v.pos = ctx.interp.fresh_int('it_pos', 0, None)
     I.loopspecs[('segno.encoder:is_kanji', 1)] = LoopSpec(inv, havoc)
 
     def thunk(I):
